@@ -25,8 +25,33 @@ FG_FILES = ("fine-grained.test", "fine-grained-modules.test", "fine-grained-bloc
             "fine-grained-dataclass-transform.test", "fine-grained-python312.test")
 
 
+# Scenarios of our own in the corpus format: a name used in TYPE positions only, one position per definition, is removed
+# and comes back (every position needs its own fine-grained dependency).
+_TP_M = (
+    "import n\nfrom typing import Optional, Callable, TypeVar, Union, List, Tuple, Type\nfrom typing_extensions import TypeGuard, TypeIs\n"
+    "def is_a(x: object) -> TypeGuard[n.A]:\n    return True\n"
+    "def is_a2(x: object) -> TypeIs[n.A]:\n    return True\n"
+    "def ret() -> Optional[n.A]:\n    return None\n"
+    "def arg(x: Union[n.A, int]) -> None:\n    pass\n"
+    "T = TypeVar('T', bound=n.A)\n"
+    "def cb(fn: Callable[[n.A], None]) -> None:\n    pass\n"
+    "def lst(x: List[n.A]) -> None:\n    pass\n"
+    "def tup(x: Tuple[n.A, int]) -> None:\n    pass\n"
+    "def typ(x: Type[n.A]) -> None:\n    pass\n"
+    "v1: Optional[n.A] = None\n"
+    "def loc() -> None:\n    y: Optional[n.A] = None\n"
+    "class H:\n    attr: Optional[n.A] = None\n    def m(self, p: 'n.A') -> None:\n        pass\n"
+)
+EXTRA_CASES: list[dict[str, Any]] = [
+    {"name": "verifTypePositions", "file": "<verif>", "main": "import m\n", "deletes": [], "builtins": "fixtures/isinstancelist.pyi", "typing": None, "skip": None,
+     "files": {"m.py": _TP_M, "n.py": "class A:\n    pass\n", "n.py.2": "class B:\n    pass\n", "n.py.3": "class A:\n    pass\nclass B:\n    pass\n"}},
+    {"name": "verifTypePositionsKind", "file": "<verif>", "main": "import m\n", "deletes": [], "builtins": "fixtures/isinstancelist.pyi", "typing": None, "skip": None,
+     "files": {"m.py": _TP_M, "n.py": "class A:\n    pass\n", "n.py.2": "A = 1\n", "n.py.3": "class A:\n    pass\n"}},
+]
+
+
 def fg_cases() -> list[dict[str, Any]]:
-    out = []
+    out = [dict(c) for c in EXTRA_CASES]
     d = os.path.join(REPO, "test-data", "unit")
     for fn in FG_FILES:
         p = os.path.join(d, fn)
